@@ -12,6 +12,7 @@ import (
 	"bytes"
 	"context"
 	"crypto/tls"
+	"errors"
 	"io"
 	"net"
 	"net/http"
@@ -298,6 +299,51 @@ func vfH_C11_connect_in_flight() {
 	open, reg := VfOpenConns(p)
 	vfrt.Assert(open == 0 && reg == 0, "connect-in-flight/open-connection-count-returns-to-zero")
 	vfrt.Assert(p.Shutdown(context.Background()) == nil, "connect-in-flight/shutdown-succeeds-once-drained")
+}
+
+//vf:assume C11-close-all: Close with 1..3 connections registered (an arbitrary pre-state of the registry, built directly), each of whose Close succeeds or fails (as a tls.Conn's does when its peer has reset): every registered socket is closed whatever the others return, and the failures are reported
+
+type vfCloseErrConn struct {
+	*VfConn
+	fail bool
+}
+
+func (c *vfCloseErrConn) Close() error {
+	c.VfConn.Close()
+	if c.fail {
+		return errors.New("close failed: connection reset by peer")
+	}
+	return nil
+}
+
+//vf:harness property=C11 nopanic reach=close-all-some-fail,close-all-none-fails
+func vfH_C11_close_all() {
+	p := &Proxy{WithoutWarning: true}
+	p.init()
+	n := 1 + vfrt.Choice("registered-connections", 3)
+	var conns []*vfCloseErrConn
+	failing := 0
+	for i := 0; i < n; i++ {
+		c := &vfCloseErrConn{VfConn: NewVfConn(nil), fail: vfrt.Choice("close-fails", 2) == 1}
+		if c.fail {
+			failing++
+		}
+		conns = append(conns, c)
+		p.connsMu.Lock()
+		p.conns[c] = struct{}{}
+		p.connsMu.Unlock()
+	}
+	if failing > 0 {
+		vfrt.Reach("close-all-some-fail")
+	} else {
+		vfrt.Reach("close-all-none-fails")
+	}
+	err := p.Close()
+	vfrt.Assert((err != nil) == (failing > 0), "close-all/failures-are-reported")
+	for _, c := range conns {
+		vfrt.Assert(c.Closed >= 1, "close-all/every-accepted-socket-is-closed")
+	}
+	vfrt.Assert(p.closing(), "close-all/closing-signal-set")
 }
 
 //vf:assume C11-concurrent: Shutdown runs on its own goroutine (with its real polling loop; the poll timer fires when every goroutine is blocked) while connection A's request is held at the origin by the harness; connection C arrives during the shutdown on a third goroutine; the harness then lets the origin answer. Goroutines are scheduled cooperatively (8.8); natively the same order is enforced by the harness's channels plus short sleeps before the "has not returned yet" checks
